@@ -20,6 +20,8 @@ Code(c) == CASE c = "chainInput"    -> "INT-01"   \* chain k input = output of c
              [] c = "calInput"      -> "INT-03"   \* calendar input = aggregation root
              [] c = "calAggrTime"   -> "INT-04"   \* calendar aggregation time = chains' time
              [] c = "calShape"      -> "INT-05"   \* time derived from calendar shape = its aggregation time
+             [] c = "calShapeNone"  -> "INT-05"   \* the link directions are the shape of NO leaf of the calendar tree of the publication time (e.g. surplus links at
+                                                \* the leaf end): the registration time cannot be derived at all -- inconclusive with the same code, never OK
              [] c = "authTime"      -> "INT-06"
              [] c = "pubTime"       -> "INT-07"
              [] c = "authHash"      -> "INT-08"
@@ -82,7 +84,7 @@ RuleOut(s, r) ==
       [] r = "CalendarHashChainExistence" -> Present(s.cal)
       [] r = "CalendarHashChainInputHashVerification" -> Unless(s, "calInput")
       [] r = "CalendarHashChainAggregationTime" -> Unless(s, "calAggrTime")
-      [] r = "CalendarHashChainRegistrationTime" -> Unless(s, "calShape")
+      [] r = "CalendarHashChainRegistrationTime" -> IF Has(s, "calShapeNone") THEN [rc |-> "OK", res |-> "NA", code |-> Code("calShapeNone")] ELSE Unless(s, "calShape")
       [] r = "CalendarChainHashAlgorithmObsoleteAtPubTime" -> OK
       [] r = "SignatureDoesNotContainPublication" -> Present(s.anchor # "pub")
       [] r = "CalendarAuthenticationRecordDoesNotExist" -> Present(s.anchor # "auth")
@@ -124,7 +126,9 @@ Verdict(s) == EvalList(s, InternalRules, 1)
 
 (* ---- (1) the declarative oracle: which verdicts the property allows ---- *)
 Allowed(s) ==
-    LET fails == {[rc |-> "OK", res |-> "FAIL", code |-> Code(c)] : c \in Violated(s) \ {"chainLevel"}}   \* one violated condition: exactly its code
+    LET Uncomputable == {"calShapeNone"}      \* conditions whose value cannot even be computed: inconclusive (or FAIL) with the condition's code
+        fails == {[rc |-> "OK", res |-> "FAIL", code |-> Code(c)] : c \in Violated(s) \ {"chainLevel"}}   \* one violated condition: exactly its code
+                 \cup {[rc |-> "OK", res |-> "NA", code |-> Code(c)] : c \in Violated(s) \cap Uncomputable}
     IN IF s.level = "huge" \/ Has(s, "chainLevel")
          THEN {[rc |-> "ERR"]} \cup fails       \* a level above 255, or a chain whose level leaves 0..255, is refused as invalid: an error or another condition's FAIL, never OK
        ELSE IF Violated(s) = {} THEN {[rc |-> "OK", res |-> "OK", code |-> "-"]}
